@@ -40,6 +40,13 @@ NOTES = {
  'C16-6': 'first missed: built-ins called with named parameters through the ORM visitors added to the non-mutation run',
  'C18-6': 'first missed: every single-kind allowed set (a class passed as such, not as a tuple) added',
  'C20-6': 'first missed: building an AliasRewriter (incl. with aliases that raise) on caller-supplied instances is now part of the history before the probes',
+ 'C03-7': 'first missed: arithmetic with the constants 0 and 1 on either side (x add 0, 0 add x, x mul 1, x mul 0, x sub 0, x div 1, x mod 1 ...) over NULL-holding columns added to c02 / c03',
+ 'C12-8': 'first missed: the named-parameter built-in matrix (length(x=s1), contains(s1, y=..)) ran on the SQL dialects only; it now runs on all seven backends - which exposed the genuine Django defect D42 (fix cf3d3cd)',
+ 'C15-6': 'first missed: the same filter TEXT applied through the shorthand to different models (Tag / O / W, same column names) in one process added',
+ 'C06-7': 'first caught only through the tie: the identifier judge counted the dots towards the 128-character limit; it now counts identifier characters, and namespaced identifiers at the limit (ns1.ns2.<121>, n.n.n...) are in the corpus',
+ 'C08-7': 'first caught only through the tie: templates comparing a literal with a LITERAL (no column on either side), alone and under and / or / not / in, added',
+ 'C10-7': 'first caught only through the tie: digit runs beyond CPython\'s int <-> str conversion limit (4299 / 4301 / 5000 digits) as integers, decimals, exponents, list elements and arguments added',
+ 'C18-7': 'first caught only through the tie: Spec.typeOf gained the temporal arithmetic rows (date sub date and datetime sub datetime are durations; date / datetime add / sub duration; duration add / sub duration; duration mul / div number) and c18 generates arithmetic over every pair of representative terms of every kind',
  'C20-4': 'first missed: accumulation histories (40-120 repetitions of one input, nine kinds that leave a parenthesis open) and extreme single inputs added',
 }
 
@@ -50,12 +57,12 @@ def main():
     n = len(res); caught = sum(1 for rc, v in res.values() if rc == '1'); inp = sum(1 for rc, v in res.values() if rc == '1' and 'no-failing' not in v)
     out = ["### 0.5 Seeded changes and which checks catch them", "",
     "Every seeded change below compiles, leaves the pinned suite at 648 passed / 10 xfailed / 4 errors, and was confirmed in a scratch worktree (its own `demo.py` passes on HEAD and fails with the patch;",
-    "`harness/confirm_seed.sh`). They were written in six rounds by fresh sub-agents that saw only the property text, a scratch worktree of /repo and (from round 2 on) one-line summaries of the",
+    "`harness/confirm_seed.sh`). They were written in seven rounds by fresh sub-agents that saw only the property text, a scratch worktree of /repo and (from round 2 on) one-line summaries of the",
     "earlier seeds for the same property so as to differ in mechanism - nothing from /verif. `harness/seed_matrix.sh` applies each in an isolated scratch worktree, runs the quick check of its",
     f"property in a scratch copy of /verif and writes `seeded/RESULTS.tsv`: {caught} of {n} are reported, {inp} with a failing input. Where a change was first missed (or caught only through a broken",
     "tie), the generator or the judge was strengthened (last column, regenerated by `harness/mkseedtable.py`) - the properties and the pass criteria were not touched. First-time detection per round",
     "(own check, before any strengthening): rounds 1-2 (47 seeds): the first misses are the ones marked in the last column (C03-3, C08-3, C12-2, C12-3, C12-4); round 3 (11 seeds): 7 with a failing input,",
-    "1 through the tie only, 3 missed; round 4 (20 seeds): 8 with a failing input, 3 through the tie only, 9 missed; round 5 (20 seeds): 10 with a failing input, 2 through the tie only, 7 missed, 1 crashed the translator; round 6 (20 seeds): 11 with a failing input, 3 through the tie only, 6 missed - rounds 3 to 6 were asked to avoid every mechanism used before, and each miss named a",
+    "1 through the tie only, 3 missed; round 4 (20 seeds): 8 with a failing input, 3 through the tie only, 9 missed; round 5 (20 seeds): 10 with a failing input, 2 through the tie only, 7 missed, 1 crashed the translator; round 6 (20 seeds): 11 with a failing input, 3 through the tie only, 6 missed; round 7 (20 seeds): 13 with a failing input, 4 through the tie only, 3 missed - rounds 3 to 7 were asked to avoid every mechanism used before, and each miss named a",
     "blind spot of a GENERATOR or of a judge's scope (literal spellings, type-confusable contents, sequences on one instance, accumulation, an over-broad refusal rule, a schema feature), never of a theorem.", "",
     "| seed | file(s) | what it changes | caught by | note |", "|---|---|---|---|---|"]
     for d in sorted(glob.glob('/verif/seeded/*/')):
